@@ -14,7 +14,20 @@
     rejected for a cycle or the height limit).  Both stabilizers are covered:
     - for every clean history, binds and their rebuilds included: [C05_wf_every_boundary_partial];
     - per operation group, for ALL states satisfying the invariant:
-      [C05_step_new] ... [C05_step_stabilize], [C05_step]. *)
+      [C05_step_new] ... [C05_step_stabilize], [C05_step].
+
+    NO FAULT ([Crash]: a nil dereference or an index fault of the library's own code):
+    - [C05_no_crash_step], [C05_no_crash_partial]: from any state satisfying the invariant, a
+      well-formed clean operation other than ParallelStabilize never faults — also when it is
+      rejected half-way (the rest of the operation runs on a weaker invariant that survives the
+      rejection).  Exhausting the model's fuel is NOT excluded: the pass fuel is fixed when the
+      pass starts, and a bind template may create more nodes than that in one pass.
+    - FULL STATEMENT (every clean operation) is FALSE: [C05_par_crash_refuted] — under
+      ParallelStabilize the nodes of a height block keep running after one bind of the block was
+      rejected for the height limit; the rejected adjustment leaves a node in the
+      adjust-heights heap, below the lower bound of the next bind's adjustment, whose scan then
+      returns nil while the heap is not empty: nil dereference.  Without binds ParallelStabilize
+      never faults ([C05_no_crash_par_bindfree]). *)
 From incr Require Import Base Heap HeapSpec EngineDefs Engine EngineWf EngineLemmas EngineInv EngineInvProofs.
 
 Theorem C05_init : forall mh, (0 < mh)%nat -> Inv (init mh).
@@ -120,6 +133,32 @@ Theorem C05_wf_every_boundary_if_bind_spec : forall mh os s,
   bind_spec (fun _ => True) -> (0 < mh)%nat -> run_clean (init mh) os = Some s -> wfb s = true.
 Proof. exact wf_every_boundary_cond. Qed.
 Print Assumptions C05_wf_every_boundary_if_bind_spec.
+
+(** no fault *)
+Theorem C05_no_crash_step : forall s o,
+  Inv s -> op_ok s o = true -> op_clean s o = true -> is_parstabilize o = false ->
+  forall c, step s o <> Crash c.
+Proof. exact nc_step. Qed.
+Print Assumptions C05_no_crash_step.
+
+Theorem C05_no_crash_partial : forall mh os s o,
+  (0 < mh)%nat -> run_clean (init mh) os = Some s ->
+  op_ok s o = true -> op_clean s o = true -> is_parstabilize o = false ->
+  forall c, step s o <> Crash c.
+Proof. exact run_no_crash. Qed.
+Print Assumptions C05_no_crash_partial.
+
+Theorem C05_no_crash_par_bindfree : forall mh os s o,
+  (0 < mh)%nat -> forallb op_nobind os = true -> run_clean (init mh) os = Some s ->
+  op_ok s o = true -> is_parstabilize o = true -> forall c, step s o <> Crash c.
+Proof. exact run_no_crash_par_bindfree. Qed.
+Print Assumptions C05_no_crash_par_bindfree.
+
+Theorem C05_par_crash_refuted : exists os s,
+  run_clean (init 8) os = Some s /\ op_ok s (ParStabilize []) = true /\ op_clean s (ParStabilize []) = true /\
+  step s (ParStabilize []) = Crash NilDeref.
+Proof. exact par_crash_refuted. Qed.
+Print Assumptions C05_par_crash_refuted.
 
 (** refutations of the unrestricted statement *)
 Theorem C05_rejection_refuted : exists os s, run (init 6) os = Ok s /\ wfb s = false.
